@@ -500,6 +500,15 @@ var debugLoadField = false
 func (ev *Evaluator) LoadField(st *State, ptr *T, fields ...string) *T {
 	cur := ptr
 	var typ types.Type = ptr.Typ
+	// a canonical field whose actual counterpart lives in a part under a clashing name is mapped to "part.leaf"
+	for i := 0; i < len(fields); i++ {
+		if n := namedOfPtr(typ); i == 0 && n != nil && n.Obj().Pkg() != nil {
+			if a, okA := toActual[n.Obj().Pkg().Name()+"."+typeCanonName(n.Obj())+"."+fields[0]]; okA && strings.Contains(a, ".") {
+				fields = append(strings.Split(a, "."), fields[1:]...)
+			}
+		}
+		break
+	}
 	for i, f := range fields {
 		// find struct type
 		var stt types.Type
@@ -589,6 +598,19 @@ func (ev *Evaluator) LoadField(st *State, ptr *T, fields ...string) *T {
 			}
 			if addr.Typ != nil {
 				ft = addr.Typ.(*types.Pointer).Elem()
+			}
+		}
+		if i < len(fields)-1 && ft != nil {
+			// a by-value struct part: keep addressing into it instead of loading the aggregate
+			if _, isStruct := ft.Underlying().(*types.Struct); isStruct {
+				if _, isPtr := ft.(*types.Pointer); !isPtr {
+					a2 := addr
+					if a2.Typ == nil {
+						a2.Typ = types.NewPointer(ft)
+					}
+					cur, typ = a2, types.NewPointer(ft)
+					continue
+				}
 			}
 		}
 		v := ev.load(st, addr, ft)
